@@ -336,3 +336,65 @@ for _fname, _ty, _net, _doc, _setup, _extra in [
     ('interpolation', 'compiler::ir::ast::Interpolation', 1, 'Compiler::interpolation: the segments are consumed into one string', _bounded_vecs(), _havoc_constants),
 ]:
     _mk_more(_fname, _ty, _net, _doc, _setup, _extra)
+
+
+# ---------------------------------------------------------------------------------------------- each operand is evaluated once
+F55_SRC = 'let a = [1, 2, 3];\nlet n = 0;\nfn idx() { n = n + 1; return 0; }\na[idx()] += 10;\nprint(n);\nprint(a[0]);\n'
+F55_REPLAY = dict(kind='lay', source=F55_SRC, expect_stdout='1\n11\n')
+
+
+def _once_obligation(res, fname, ast_ty):
+    P = get_program('vm')
+    e = Engine(P, loop_bound=6, timeout_s=180, max_depth=60)
+    CW = CompilerWorld(e, P)
+    _havoc_constants(e, CW)
+    f = P.lookup('compiler::Compiler::' + fname)
+
+    def m_expr(e_, a, c):
+        node = a[1]
+        cell = node.cell if isinstance(node, Ref) else node
+        e_.path_state.setdefault('lowered', []).append(id(cell))
+        e_.path_state.setdefault('keep', []).append(cell)
+        e_.path_state['emitted'].append(('chunk', 'expr', len(e_.path_state['lowered'])))
+        return UNIT
+    e.model(r'^(compiler::)?Compiler::expr$', m_expr)
+    e.allow_havoc(r'^(compiler::)?Compiler::(apply_atom|emit_known_invoke|property_get|property_set|record_field|variable_get|variable_set|instance_access_self)$',
+                  r'^(compiler::ir::)?(ast::)?Primary::is_self$')
+
+    def path(e):
+        c = CW.fresh_compiler(e)
+        node = e.fresh(ast_ty, 'node')
+        sd = P.struct_def(ast_ty)
+        lhs = node.field(e, sd.index_of('lhs'), sd.fields[sd.index_of('lhs')][1]).get(e)
+        asd = P.struct_def('compiler::ir::ast::Atom')
+        trailers = lhs.field(e, asd.index_of('trailers'), asd.fields[asd.index_of('trailers')][1]).get(e)
+        e.assume(z3.ULE(trailers.len, 2))
+        e.call(f, [Ref(Cell(c)), Ref(Cell(node))])
+        low = e.path_state.get('lowered', [])
+        twice = sorted({x for x in low if low.count(x) > 1})
+        e.check(not twice, f'{fname}: every operand expression (index, right-hand side) is lowered exactly once, so its side effects happen once',
+                {'expressions lowered': len(low), 'lowered twice': len(twice)})
+        return {'fn': fname, 'lowered': len(low)}
+    results = e.explore(path)
+    for r in results:
+        for lab, ok, info in list(r.checks):
+            if not ok and fname == 'assign_binary':
+                res.fail('C01.C2:assign_binary: the index expression of a compound assignment is evaluated twice',
+                         'assign_binary lowers index.index once for the read and once for the write of `a[i] op= v` (only Dup is available to keep the receiver): '
+                         'an index expression with side effects runs twice', info, replay=F55_REPLAY)
+                r.checks.remove((lab, ok, info))
+        if r.kind in ('panic', 'oob', 'unreachable', 'ub', 'diverge', 'depth'):
+            s = str(r.info)
+            if 'unreachable' in s.lower() or 'Unexpected expression' in s or 'panic_fmt' in s:
+                continue
+            res.fail(f'C01.C2:{fname}:{r.kind}', f'{fname}: path ends in {r.kind}: {s[:200]}', {'path': s})
+    summarize_paths(res, e, results, lambda r: r.info if isinstance(r.info, dict) else None, key_prefix=f'C01.C2:{fname}:', unwind_ok=True)
+
+
+@obligation('C01.C2.operands_evaluated_once', 'C01', programs=('vm',))
+def c2_once(res, tier):
+    """Compiler::assign / assign_binary / send with opaque operand expressions: each operand expression of the statement is lowered
+    exactly once (assignment as an expression behaves as written: the side effects of an index or right-hand side happen once)"""
+    res.bounds = {'trailers on the left-hand side': '<= 2, every variant', 'operands': 'opaque expressions'}
+    for fname, ty in (('assign', 'compiler::ir::ast::Assign'), ('assign_binary', 'compiler::ir::ast::AssignBinary'), ('send', 'compiler::ir::ast::Send')):
+        _once_obligation(res, fname, ty)
